@@ -32,7 +32,7 @@ class C28(core.Check):
                   "lawful on the generated domain is carried by the correspondence and the oracle over call HISTORIES (failed serialisations in between, the same bytes loaded twice with the first result scribbled on).")
     level_note = ("Trusted: Lean kernel + propext/Classical.choice/Quot.sound; dataclasses.asdict / dataclass __init__ / typing introspection as modelled; "
                   "json, cbor2, msgpack as lawful codecs on the common domain (exercised, not proved); representativeness of the sampled correspondence.")
-    quick_n = 2500
+    quick_n = 1200
     thorough_n = 30000
     rule = ("rt cases: random schema of 1-5 fresh run-time dataclasses over RawDom/RegDom/TymeDom/Ice*/MapDom bases or subclasses of earlier generated classes (inheritance depth >= 2, redeclared fields), field names incl. leading/trailing/double underscore and unicode identifiers, fields annotated Any / builtin / class / Optional[class] / "
             "class|None / unions of 2-3 classes in either spelling (values of EVERY member) / list[class] / dict[str,class] / 'class' (string), defaults or required; instance of depth <= 4 with 64-bit ints, "
@@ -59,7 +59,7 @@ class C28(core.Check):
         for v in (("dict", []), ("list", []), ("str", ""), ("dict", [("x", ("int", 1))]), ("dict", [("q", ("int", 1))]), ("null",), ("str", "x"), ("list", [("str", "x")])):
             cs.append(("rt", [P, L(("dom", 0))], ("obj", 1, [v, ("null",)])))
             cs.append(("rt", [Q, L(("dom", 0))], ("obj", 1, [v, ("null",)])))
-        for base in D.ALL_BASES:
+        for base in ("raw", "reg", "tyme", "iceraw", "icereg", "icetyme", "map", "icemap"):
             inner = (base, [("x", ("any",), ("d", ("int", 0)))])
             outer = (base, [("a", ("dom", 0), ("d", ("null",))), ("b", ("any",), ("d", ("str", "é")))])
             cs.append(("rt", [inner, outer], ("obj", 1, [("obj", 0, [("float", sx.fbits(-0.0))]), ("int", -2 ** 63)])))
@@ -105,12 +105,32 @@ class C28(core.Check):
         cs.append(("load", [(("chk", "iceraw", "n", 0, 100, "Rejected"), [("n", ("any",), ("d", ("int", 5)))])], 0, ("dict", [("n", ("int", 101))])))
         # sizes around the limits libraries put on what they unpack (msgpack < 1.0 defaults): 2^15 map items, 2^17 array items, 2^20 bytes of str
         G = ("raw", [("g", ("any",), ("d", ("null",)))])
-        for n in (2 ** 15, 2 ** 15 + 1):
-            cs.append(("rt", [G], ("obj", 0, [("dict", [(f"k{i:05d}", ("int", i)) for i in range(n)])])))
-        for n in (2 ** 17, 2 ** 17 + 1):
-            cs.append(("rt", [G], ("obj", 0, [("list", [("int", i & 1) for i in range(n)])])))
-        for n in (2 ** 20, 2 ** 20 + 1):
-            cs.append(("rt", [("iceraw", G[1])], ("obj", 0, [("list", [("str", "s" * n), ("int", 1)])])))
+        cs += self._limit_cases(1)          # one above each limit always; exactly at the limits in the thorough tier (exhaustive())
+        # inheritance over the library's decorated bases with every decorator combination on the child that ADDS fields
+        for root in ("tyme", "icetyme", "bag", "icebag", "reg", "raw", "iceraw"):
+            for d1 in ("nr", "r", "n", ""):
+                for d2 in ("r", "", "nr"):
+                    if root in ("raw", "iceraw") and ("r" in d1 or "r" in d2):
+                        continue
+                    K0 = (("dec", root, d1), [("aa", ("any",), ("d", ("int", 1)))])
+                    K1 = (("dec", ("sub", 0), d2), [("bb", ("any",), ("d", ("null",))), ("cc", ("any",), ("d", ("str", "c")))])
+                    K2 = (("sub", 1), [("dd", ("opt", [0]), ("d", ("null",)))])
+                    vals1 = ([("null",)] if root in ("bag", "icebag") else []) + [("int", 2), ("list", [("int", 3)]), ("str", "x")]
+                    cs.append(("rt", [K0, K1, K2], ("obj", 1, vals1)))
+                    cs.append(("rt", [K0, K1, K2], ("obj", 2, vals1 + [("obj", 0, ([("str", "v")] if root in ("bag", "icebag") else []) + [("int", 9)])])))
+        # classes that define the _dictify / _datify hook pair: on every family, frozen and mutable, top level and nested, inherited
+        for root in ("raw", "iceraw", "reg", "icereg", "tyme", "icetyme", "map", "icemap", "bag"):
+            for kind in ("rename", "wrap"):
+                H0 = (("hook", root, kind), [("level", ("any",), ("d", ("int", 0))), ("tags", ("any",), ("d", ("null",)))])
+                H1 = (("sub", 0), [("more", ("any",), ("d", ("str", "m")))])
+                Ho = (root if root != "bag" else "raw", [("inner", ("dom", 0), ("d", ("null",))), ("g", ("any",), ("d", ("null",)))])
+                pre_ = [("null",)] if root == "bag" else []
+                cs.append(("rt", [H0, H1, Ho], ("obj", 0, pre_ + [("float", sx.fbits(1.5)), ("list", [("int", 5)])])))
+                cs.append(("rt", [H0, H1, Ho], ("obj", 1, pre_ + [("list", [("int", 1), ("int", 2)]), ("dict", [("k", ("int", 1))]), ("str", "x")])))
+                cs.append(("rt", [H0, H1, Ho], ("obj", 2, [("obj", 0, pre_ + [("int", 3), ("null",)]), ("null",)])))          # nested: C28-K5
+                cs.append(("load", [H0, H1, Ho], 0, ("dict", [("level", ("int", 1))])))
+                cs.append(("load", [H0, H1, Ho], 0, ("dict", [("h_level", ("int", 1))])))
+                cs.append(("load", [H0, H1, Ho], 0, ("dict", [("level", ("list", [("int", 1)]))])))
         # histories in one process: a failed serialisation must not change what comes after it; the same bytes load twice
         good = ("obj", 1, [p12, ("list", [("int", 1), ("dict", [("z", ("list", []))])])])
         for base in ("raw", "iceraw", "icetyme", "reg"):
@@ -118,6 +138,18 @@ class C28(core.Check):
             Lb = (base, L(("dom", 0))[1])
             cs.append(("seq", [Pb, Lb], [("rt", good), ("bad", "raw"), ("rt", good), ("bad", "iceraw"), ("bad", "raw"), ("rt", good), ("load", 0, ("dict", [("x", ("int", 1))]))]))
         return cs
+
+    @staticmethod
+    def _limit_cases(delta):
+        G = ("raw", [("g", ("any",), ("d", ("null",)))])
+        return [("rt", [G], ("obj", 0, [("dict", [(f"k{i:05d}", ("int", i)) for i in range(2 ** 15 + delta)])])),
+                ("rt", [G], ("obj", 0, [("list", [("int", i & 1) for i in range(2 ** 17 + delta)])])),
+                ("rt", [("iceraw", G[1])], ("obj", 0, [("list", [("str", "s" * (2 ** 20 + delta)), ("int", 1)])]))]
+
+    def exhaustive(self, tier):
+        if tier != "thorough":
+            return [], None
+        return self._limit_cases(0) + self._limit_cases(2), "records exactly at and two above the unpack limits (2^15 map items, 2^17 array items, 2^20 str bytes)"
 
     def generate(self, rng, n, tier):
         for _ in range(n):
@@ -212,8 +244,8 @@ class C28(core.Check):
                 except Exception as ex:
                     extra.append("update-positional-raised-" + type(ex).__name__)
         try:
-            # the mapping face of a record: iteration gives the field names, item access the values
-            if list(x) != [f.name for f in dataclasses.fields(cls)] or any(x[f.name] is not getattr(x, f.name) for f in dataclasses.fields(cls)):
+            # the mapping face of a record: iteration gives the keys of its dict form, item access the field values
+            if list(x) != list(x._asdict()) or any(x[f.name] is not getattr(x, f.name) for f in dataclasses.fields(cls)):
                 extra.append("mapping-interface-wrong")
         except Exception as ex:
             extra.append("mapping-interface-raised-" + type(ex).__name__)
@@ -424,6 +456,8 @@ class C28(core.Check):
                 ids.add("C28-K2")
             elif D.ambiguous_union(schema, st[1]):
                 ids.add("C28-K3")
+            elif D.nested_hooked(schema, st[1]):
+                ids.add("C28-K5")
             else:
                 return None
         return sorted(ids)[0] if ids else None
@@ -479,7 +513,9 @@ class C28(core.Check):
             f.append(f"objdepth:{depth(t)}")
             if later_member(t):
                 f.append("union:value-of-later-member")
-            f.append("guard:" + ("K1" if D.misplaced_obj(schema, t) else "K2" if D.upgraded_plain(schema, t) else "K3" if D.ambiguous_union(schema, t) else "clean"))
+            f.append("guard:" + ("K1" if D.misplaced_obj(schema, t) else "K2" if D.upgraded_plain(schema, t) else "K3" if D.ambiguous_union(schema, t) else "K5" if D.nested_hooked(schema, t) else "clean"))
+            if D.hook_of(schema, t[1]) is not None:
+                f.append("hooked-class:" + D.hook_of(schema, t[1]) + ":" + D.base_of(schema, t[1]))
             f.append("rt:" + ("equal" if so[4] and all(so[4]) else "differs"))
         return f
 
